@@ -91,6 +91,7 @@ type Exec struct {
 	mergeStates  []*State
 	limited      bool
 	assertsDone  map[*AssertSpec]bool
+	onlyLine     int
 	callArgsDone map[*CallArgSpec]bool
 	ghostCells   map[string]*Cell
 	ghostDone    map[*GhostSet]bool
